@@ -11,7 +11,7 @@ ids=$(echo $ids | tr ' ' '\n')
 work() {
   w=$1; shift
   C=/var/tmp/rcp_clone.$$.$w; O=/var/tmp/rcp_out.$$.$w
-  rm -rf $C; git clone -q /repo $C || exit 2
+  rm -rf $C; git clone -q ${RECHECK_SRC:-/repo} $C || exit 2
   for id in "$@"; do
     P=${id%%-*}
     git -C $C checkout -q -- . ; git -C $C clean -fdq
